@@ -183,23 +183,24 @@ def triage(ctx, res, rows_by_id, tag, max_sigs=12, layer="L1"):
     rerun, want = [], []
     for sig, (f, line, check, e, events) in todo:
         ids = [x["id"] for x in events[:line]] if check == "audit_hash" else [e["id"]]
+        first = len(rerun) + 1
         for i in ids:
             rerun.append(rows_by_id[i])
-        want.append((sig, check, e["id"], len(rerun)))
+        want.append((sig, check, e["id"], first, len(rerun)))
     rf = os.path.join(ctx.scratch, "repro-%s.ndjson" % tag)
     write_rows(rf, rerun)
     files = execute(ctx, rf, "repro-" + tag, len(rerun), shards=1, layer=layer)
     rr = validate(ctx, files, "repro-" + tag)[0]
     revents = vf.load_trace(files[0])
     refails = {(line, check) for (line, _ev, check) in rr["fails"]}
-    for sig, check, rid, line in want:
+    for sig, check, rid, first, line in want:
         if revents[line - 1]["id"] != rid:
             raise vf.Infra("reproduction run out of step at %s" % rid)
         if (line, check) not in refails:
             raise vf.Infra("divergence did not reproduce: %s" % sig)
         e = revents[line - 1]
         vf.report(ctx, sig, describe(check, e), {"row": rows_by_id[rid], "check": check, "event": e, "layer": layer,
-                                                 "prefix": [rows_by_id[x["id"]] for x in revents[:line - 1]]})
+                                                 "prefix": [rows_by_id[x["id"]] for x in revents[first - 1:line - 1]]})
     ctx.count("failed_checks", len(fails))
     ctx.count("distinct_signatures", len(reps))
     if len(reps) > len(todo):
